@@ -292,6 +292,21 @@ def getters(ctx):
            'entries differing: %s' % bad, key='abc roundtrip')
 
 
+def scale_free_cleanup(ctx, rule):
+    """every store into the cell vectors that zeroes "near-zero" components decides nearness on a scale-free quantity: a cell expressed in metres (components ~1e-10)
+    is the same cell as in angstroms and must not be wiped out.  Shared with the properties that read the cell through this setter."""
+    st = ctx.fn(BOX, 'Box.vects', setter=True)
+    loc = BOX + '::Box.vects.setter'
+    cl = [s for s in ast.walk(st) if _is_cleanup(s)]
+    for s in cl:
+        arg = s.targets[0].slice.args[0]
+        deg = _degree(arg)
+        atol = kwarg(s.targets[0].slice, 'atol')
+        ctx.ob(rule, loc, 'the near-zero clean-up tests a scale-free quantity (homogeneous of degree 0 in the vectors) against a tolerance ≤ 1e-6',
+               deg == 0 and (atol is None or (isinstance(atol, ast.Constant) and atol.value <= 1e-6)), 'tested quantity %s has degree %s' % (norm(arg), deg), node=s, key='cleanup scale-free')
+    return len(cl)
+
+
 def cache(ctx):
     cls = ctx.fn(BOX, 'Box')
     writers = {}
@@ -317,14 +332,7 @@ def cache(ctx):
     lastw = max([s.lineno for s in writers.get('vects.setter', [])] or [0])
     ctx.ob('CACHE', loc, 'every path through the setter resets the reciprocal cache after the last write (unconditional top-level statement)',
            len(resets) >= 1 and resets[-1].lineno > lastw, 'top-level resets: %d' % len(resets), node=st, key='reset unconditional')
-    # scale-free clean-up
-    cl = [s for s in ast.walk(st) if _is_cleanup(s)]
-    for s in cl:
-        arg = s.targets[0].slice.args[0]
-        deg = _degree(arg)
-        atol = kwarg(s.targets[0].slice, 'atol')
-        ctx.ob('CACHE', loc, 'the near-zero clean-up tests a scale-free quantity (homogeneous of degree 0 in the vectors) against a tolerance ≤ 1e-6',
-               deg == 0 and (atol is None or (isinstance(atol, ast.Constant) and atol.value <= 1e-6)), 'tested quantity %s has degree %s' % (norm(arg), deg), node=s, key='cleanup scale-free')
+    scale_free_cleanup(ctx, 'CACHE')
     # other stores into the vectors inside the setter must be the plain assignment of the value
     others = [s for s in writers.get('vects.setter', []) if not _is_cleanup(s)]
     ctx.ob('CACHE', loc, 'the setter stores the given value unchanged', len(others) == 1 and norm(others[0].value) == 'value' and norm(others[0].targets[0]) == 'self.__vects[:]',
